@@ -84,6 +84,7 @@ class C19(World):
     components_real = ["OpenPinch.classes.stream.Stream", "OpenPinch.classes.stream_collection.StreamCollection"]
     components_stub = []
     fault_kinds = []
+    state_abstraction = "per stream (kind, sign of t_supply - t_target or 'incomplete', sign of duty) and per collection (size, stale flag, sort-key kind, direction, number of renamed keys)"
     rule = (
         "each run = one generated history (3-30 steps) of constructor/setter calls on a pool of <=6 Stream objects and "
         "add/add_many/remove/replace/set_sort_key/concatenate/query calls on <=3 StreamCollection objects, issued by 1-2 "
